@@ -330,6 +330,7 @@ var (
 	xMtypeBytes           = []byte("X-Mtype")
 	errBadHTTPMsg         = errors.New("bad HTTP message")
 	errUnsupportHTTPCode  = errors.New("unsupport HTTP status code")
+	errExceedReadLimit    = errors.New("size of HTTP message exceeds the read limit")
 )
 
 func (h *httproto) unpack(m erpc.Message, bb *utils.ByteBuffer) (size int, msg []byte, err error) {
@@ -398,6 +399,10 @@ func (h *httproto) unpack(m erpc.Message, bb *utils.ByteBuffer) (size int, msg [
 	if bodySize <= 0 {
 		return size, msg, nil
 	}
+	// the announced size must respect the read limit before the body buffer is allocated
+	if uint64(size) > uint64(erpc.GetReadLimit()) {
+		return 0, nil, errExceedReadLimit
+	}
 	bb.ChangeLen(bodySize)
 	_, err = io.ReadFull(h.rw, bb.B)
 	if err != nil {
@@ -426,6 +431,9 @@ func (h *httproto) readLine(bb *utils.ByteBuffer) error {
 				bb.B = bb.B[:n-1]
 			}
 			return nil
+		}
+		if uint64(bb.Len()) >= uint64(erpc.GetReadLimit()) {
+			return errExceedReadLimit
 		}
 		bb.Write(oneByte)
 	}
